@@ -273,7 +273,7 @@ class Gen:
                 if dup['k'] == 'block' and cname(dup['open']) in ('function', 'macro') and g.random() < 0.6:
                     # the two variants agree in name, parameters and doccomment and differ in their bodies: only one parses keyword arguments
                     which = dup if g.random() < 0.7 else out[i]
-                    which['body'] = [self.item('cpa', depth + 1, False, False, False)] + [b for b in which['body'] if not (b['k'] == 'cmd' and cname(b['call']) == 'cmake_parse_arguments')]
+                    which['body'] = [self.item('cpa', depth + 1, False, False, False)] + which['body']
                 out.insert(g.randint(i + 1, len(out)), dup)
         # a dangling doccomment must be followed by another doccomment or the end of the enclosing list's text:
         # keep it well-formed by giving the next item a doccomment, or by moving it to the very end of the module
